@@ -169,12 +169,16 @@ example : regenVal ((buildExpr flatFc flatE flatSt).2.pop ++ [Flat.Row.brk 0]) 9
     `if` statements WITH any number of elif clauses and an optional else clause over such lists (nested to any depth: a new
     ACT_BLK per nested list, R608 / R605 / R607 / R658 / R606, its own R602 / R661 chain, an empty body included; every
     clause's own ACT_SMT lies in the block HOLDING the if, is chained nowhere and is skipped by the first-statement filter;
-    R682 / R683 navigate to exactly the clauses of that `if`, in creation order), with variable / instance names other than
-    `self`: reading the population
+    R682 / R683 navigate to exactly the clauses of that `if`, in creation order).  `self` (in a home that has one: the
+    look-up creates V_VAR + V_INT in the innermost scope the first time the name is not visible) is covered as the instance
+    name of delete / relate / unrelate (+ using, any operand), as the returned value (`self`, `self.attr`) and as the
+    root of an assigned / a read attribute in an attribute assignment (`self.a = d.b; d.b = self.a;`: `coreX`); it is
+    NOT covered inside unary / binary operations, conditions, where clauses and as a declared name: reading the population
     `prebuildFlat` builds back with `regenFlat` (outer block R666, R602 first-statement filter, R603 subtype dispatch,
     R661 successor chain to its end, variables through the symbol table) prints `genTokens`.
     `flatOk`: the builder never failed (the flag is never set back: `okAll_of_flatOk`).
-    MISSING for the full `regen_of_prebuild`: `self` as an instance name, select related (chains), invocations,
+    MISSING for the full `regen_of_prebuild`: `self` inside operations / conditions / where clauses, select related
+    (chains), invocations,
     event statements. -/
 theorem regen_of_prebuild_partial (fc : FCtx) (a : Block) (hc : coreB a = true) (hok : flatOk fc a = true) :
     regenFlat (prebuildFlat fc a) = genTokens a :=
